@@ -31,7 +31,7 @@ def run_translator() -> str | None:
     return None
 
 
-COQ_TARGETS = ["theories/Model/AnnotDbRun.vo"]
+COQ_TARGETS = ["theories/Model/AnnotDbRun.vo", "theories/Model/AnnotDbGff.vo"]
 
 
 def pre_build():
@@ -137,6 +137,35 @@ def lattice_case(kind, n=6):
     return dict(kind=kind, ops=ops, queries=qs, block="lattice")
 
 
+def twotable_cases():
+    """argument handling of both query entry points on two-table (gff+user) and one-table dbs:
+    on_alignment in {None, True, False} x user rows present/absent x gff rows present/absent x
+    start in {None, 0, 2} x stop in {None, 0, 3, 6} x allow_partial x one falsy-or-plain filter, exhaustive"""
+    gff_feats = [dict(seqid="s1", biotype="gene", name="g03", strand="+", attrs=None, lines=[[1, 3]]),
+                 dict(seqid="s2", biotype="CDS", name="g26", strand="-", attrs="note=abc", lines=[[3, 6]]),
+                 dict(seqid="s1", biotype="CDS", name="g05", strand="+", attrs=None, lines=[[1, 2], [4, 5]])]
+    users = [dict(seqid="s1", biotype="gene", name="u02", strand="+", attrs=None, on_aln=True, spans=[[0, 2]]),
+             dict(seqid="s1", biotype="exon", name="u14", strand="-", attrs="", on_aln=False, spans=[[1, 4]]),
+             dict(seqid="s2", biotype="gene", name="u36", strand=None, attrs="x=1", on_aln=None, spans=[[3, 6]]),
+             dict(seqid="s1", biotype="gene", name="", strand="+", attrs=None, on_aln=True, spans=[[0, 6]]),
+             dict(seqid="s2", biotype="gene", name="u01", strand="-", attrs=None, on_aln=False, spans=[[0, 1]])]
+    filters = [dict(), dict(name=""), dict(seqid="s1"), dict(strand="+"), dict(attrs=""), dict(biotype="gene", seqid="s2")]
+    qs = []
+    for on in (None, True, False):
+        for a in (None, 0, 2):
+            for b in (None, 0, 3, 6):
+                for p in (True, False):
+                    for f in filters:
+                        q = dict(biotype=None, seqid=None, name=None, strand=None, attrs=None, on_aln=on, start=a, stop=b, partial=p)
+                        q.update(f)
+                        qs.append(q)
+    adds = [dict(op="add", raw=u) for u in users]
+    return [dict(kind="gff", ops=[dict(op="gff", features=gff_feats)], queries=qs, block="twotable"),
+            dict(kind="gff", ops=[dict(op="gff", features=gff_feats)] + adds, queries=qs, block="twotable"),
+            dict(kind="gff", ops=adds, queries=qs, block="twotable"),
+            dict(kind="basic", ops=adds, queries=qs, block="twotable")]
+
+
 def random_case(rng):
     kind = rng.choice(["basic", "gff"])
     ops = []
@@ -163,6 +192,263 @@ def random_case(rng):
     qs.append(dict(biotype=None, seqid=None, name=None, strand=None, attrs=None, on_aln=None, start=None, stop=None,
                    partial=False))
     return dict(kind=kind, ops=ops, queries=qs, block="random")
+
+
+# ------------------------------------------------------------------ chunked GFF loads (lines_per_block)
+
+GB_SEQIDS = ["s1", "s2", "chrX"]
+GB_STRANDS = ["+", "-", "."]
+GB_EXTRA = ["", "Name=n1", "Parent=g0", "Note=a b", "Name=n2;Parent=g0,g1"]
+DEFAULT_LPB = 500000
+
+
+def gb_row_text(r):
+    attrs = []
+    if r["id"] is not None:
+        attrs.append(f"ID={r['id']}")
+    if r["extra"]:
+        attrs.append(r["extra"])
+    if r.get("id_last") and len(attrs) == 2:
+        attrs.reverse()
+    line = "\t".join([r["seqid"], "src", r["biotype"], str(r["s"]), str(r["e"]), ".", r["strand"], ".", ";".join(attrs)])
+    if r.get("tail"):
+        line += " # " + r["tail"]
+    return line
+
+
+def gb_text(entries):
+    return "".join((e["c"] if "c" in e else gb_row_text(e)) + "\n" for e in entries)
+
+
+def gb_lpbs(nlines):
+    return sorted({1, 2, 3, 5, max(1, nlines - 1), nlines, DEFAULT_LPB}) + [None]
+
+
+def gb_queries(rng, k=3):
+    qs = [[0, 1000, True]]
+    for _ in range(k):
+        a = rng.randint(0, 45)
+        qs.append([a, a + rng.choice([1, 3, 8, 20]), rng.random() < 0.6])
+    return qs
+
+
+def gb_case(entries, queries, block):
+    text = gb_text(entries)
+    n = len(text.splitlines())
+    return dict(kind="gffblocks", block=block, text=text, lpbs=gb_lpbs(n), queries=queries)
+
+
+def gb_random_case(rng):
+    """rows with and without ID=, multi-row features sharing an ID (adjacent or interleaved), several
+    seqids/strands, comment / directive / blank lines, trailing comments"""
+    single_only = rng.random() < 0.4   # every ID'd feature has one row: no feature can be split by a block boundary
+    rows = []
+    nfeat = rng.randint(2, 7)
+    for i in range(nfeat):
+        has_id = rng.random() < (0.45 if single_only else 0.65)
+        nrows = 1 if (single_only or not has_id) else rng.choice([1, 2, 2, 3])
+        base = dict(seqid=rng.choice(GB_SEQIDS), biotype=rng.choice(BIOTYPES), strand=rng.choice(GB_STRANDS))
+        used = set()
+        for _ in range(nrows):
+            while True:
+                s = rng.randint(1, 40)
+                e = s + rng.choice([0, 1, 4, 9, 15])
+                if (s, e) not in used:
+                    used.add((s, e))
+                    break
+            r = dict(base, id=(f"f{i}" if has_id else None), extra=rng.choice(GB_EXTRA), s=s, e=e)
+            if rng.random() < 0.15:
+                r["id_last"] = True
+            if rng.random() < 0.1:
+                r["tail"] = "note"
+            rows.append((i, r))
+    if rng.random() < 0.5:
+        # interleave rows of different features, keeping the order of rows inside a feature
+        per = {}
+        for i, r in rows:
+            per.setdefault(i, []).append(r)
+        rows = []
+        while per:
+            i = rng.choice(sorted(per))
+            rows.append((i, per[i].pop(0)))
+            if not per[i]:
+                del per[i]
+    entries = [r for _, r in rows]
+    if rng.random() < 0.85:
+        entries.insert(0, dict(c="##gff-version 3"))
+    for _ in range(rng.choice([0, 0, 1, 2, 3])):
+        entries.insert(rng.randint(0, len(entries)), dict(c=rng.choice(["# a comment", "##sequence-region s1 1 100", "", "#"])))
+    return gb_case(entries, gb_queries(rng), "gffblocks-random")
+
+
+def gb_exhaustive_cases():
+    """every file of 4 data rows, each row carrying ID=a, ID=b or no ID (3^4), with and without a comment line in
+    the middle, each loaded with every block size; rows differ in seqid / strand / coordinates"""
+    base = [dict(seqid="s1", biotype="gene", strand="+", s=1, e=10), dict(seqid="s2", biotype="CDS", strand="-", s=21, e=30),
+            dict(seqid="s1", biotype="exon", strand="-", s=41, e=45), dict(seqid="chrX", biotype="CDS", strand="+", s=15, e=50)]
+    out = []
+    for ids in itertools.product(["a", "b", None], repeat=4):
+        for comment in (False, True):
+            entries = [dict(b, id=i, extra="") for b, i in zip(base, ids)]
+            if comment:
+                entries.insert(2, dict(c="# c"))
+            entries.insert(0, dict(c="##gff-version 3"))
+            out.append(gb_case(entries, [[0, 1000, True], [12, 22, True], [0, 30, False]], "gffblocks-exhaustive"))
+    return out
+
+
+def gb_parse(text):
+    """the data rows of a GFF text, read independently of the implementation: (id|None, seqid, biotype, strand, attrs, s, e)
+    plus the index of the physical line each row sits on"""
+    rows = []
+    for ln, line in enumerate(text.splitlines()):
+        body = line.split("#", 1)[0].strip()
+        if not body:
+            continue
+        cols = [c.strip() for c in body.split("\t")]
+        if len(cols) == 8:
+            cols.append("")
+        seqid, _src, biotype, s, e, _score, strand, _phase, attrs = cols
+        ident = None
+        for item in attrs.split(";"):
+            k, _, v = item.partition("=")
+            if k.strip() == "ID" and v:
+                ident = v.split()[0]
+        rows.append(dict(id=ident, seqid=seqid, biotype=biotype, strand=strand, attrs=attrs, s=int(s), e=int(e), line=ln))
+    return rows
+
+
+def gb_oracle_records(text):
+    """records by the specification: rows sharing an ID are one record with all their spans, a row without ID is
+    one record; 1-based closed -> 0-based half-open; start/stop are the extremes; nothing depends on blocking"""
+    recs, by_id, nfake = [], {}, 0
+    for r in gb_parse(text):
+        if r["id"] is None:
+            name = f"unknown-{nfake}"
+            nfake += 1
+            rec = None
+        else:
+            name = r["id"]
+            rec = by_id.get(name)
+        if rec is None:
+            rec = dict(name=name, seqid=r["seqid"], biotype=r["biotype"], strand=r["strand"], attrs=r["attrs"], spans=[])
+            recs.append(rec)
+            if r["id"] is not None:
+                by_id[name] = rec
+        rec["spans"].append([r["s"] - 1, r["e"]])
+    out = []
+    for rec in recs:
+        sp = sorted(rec["spans"])
+        flat = [x for p in sp for x in p]
+        out.append([rec["name"], rec["seqid"], rec["biotype"], rec["strand"], rec["attrs"], sp, min(flat), max(flat)])
+    return out
+
+
+def gb_oracle(c):
+    recs = gb_oracle_records(c["text"])
+    qres = []
+    for qs, qe, partial in c["queries"]:
+        hit = [r for r in recs if ((r[6] < qe and qs < r[7]) if partial else (qs <= r[6] and r[7] <= qe))]
+        qres.append(sorted(([r[0], r[5]] for r in hit), key=repr))
+    return [sorted(recs, key=repr), qres]
+
+
+_FAKE = re.compile(r"^unknown-\d+$")
+
+
+def gb_anon(obs):
+    """the same observation with the names given to ID-less records blanked (their numbering is not part of the
+    specification) — but two records must not share such a name"""
+    recs, qres = obs
+    fakes = [r[0] for r in recs if _FAKE.match(r[0])]
+    if len(set(fakes)) != len(fakes):
+        return None
+    an = lambda n: "unknown-*" if _FAKE.match(n) else n  # noqa: E731
+    return [sorted(([an(r[0])] + r[1:] for r in recs), key=repr), [sorted(([an(x[0]), x[1]] for x in q), key=repr) for q in qres]]
+
+
+def gb_split_ids(text, lpb):
+    """IDs whose rows fall into more than one block of lpb lines"""
+    if lpb is None or lpb <= 0:
+        return set()
+    blocks = {}
+    for r in gb_parse(text):
+        if r["id"] is not None:
+            blocks.setdefault(r["id"], set()).add(r["line"] // lpb)
+    return {i for i, b in blocks.items() if len(b) > 1}
+
+
+def gb_key(c, lpb):
+    n = len(c["text"].splitlines())
+    if gb_split_ids(c["text"], lpb):
+        return "gffblocks:id-rows-split-across-blocks"
+    if lpb is not None and 0 < lpb < n:
+        return "gffblocks:several-blocks"
+    return "gffblocks:one-block"
+
+
+def gb_coq_case(c, fixed):
+    rows = {r["line"]: r for r in gb_parse(c["text"])}
+    n = len(c["text"].splitlines())
+    lines = []
+    for ln in range(n):
+        r = rows.get(ln)
+        if r is None:
+            lines.append("None")
+        else:
+            lines.append(f"mkgl {ostr(r['id'])} {zstr(r['seqid'])} {zstr(r['biotype'])} {zstr(r['strand'])} {zstr(r['attrs'])} "
+                         f"{zlit(r['s'])} {zlit(r['e'])}")
+    ns = [0 if b is None else min(b, n + 1) for b in c["lpbs"]]
+    return f"({cbool(fixed)}, [" + ";".join(lines) + "], [" + ";".join(zlit(x) for x in ns) + "])"
+
+
+def gb_model_records(mres):
+    """model output for one case -> per block size the sorted record list with fake names rendered"""
+    out = []
+    for per in mres:
+        recs = []
+        for r in per:
+            name = r[0] if isinstance(r[0], str) else f"unknown-{r[0][0]}"
+            recs.append([name] + list(r[1:]))
+        out.append(sorted(recs, key=repr))
+    return out
+
+
+# the canonical split feature: which rule does the source under test follow for a name seen in an earlier block?
+GB_PROBE = gb_case([dict(c="##gff-version 3")] + [dict(seqid="s1", biotype="CDS", strand="+", id="c1", extra="", s=s, e=e)
+                                                    for s, e in ((11, 20), (31, 40), (41, 50))], [[0, 1000, True]], "gffblocks-probe")
+
+
+def gb_compare(rep, cases, impl, model, fixed):
+    """returns (#loads, #loads with >1 block holding ID-less rows in >1 block, disagreements, violations)"""
+    nload = nnontriv = nvio = 0
+    dis = []
+    for c, ir, mr in zip(cases, impl, model):
+        ir = from_jsonable(ir)
+        orc = gb_oracle(c)
+        orc_anon = gb_anon(orc)
+        if isinstance(ir, dict) and "exc" in ir:
+            nvio += 1
+            rep.violation(f"raised:gffblocks:{re.sub('[0-9]+', 'N', ir.get('msg', ''))[:60]}",
+                          dict(case=c, observed_impl=ir, broken="loading a valid GFF text raised or hung"))
+            continue
+        mrecs = gb_model_records(mr) if mr is not None else None
+        rows = gb_parse(c["text"])
+        for bi, lpb in enumerate(c["lpbs"]):
+            nload += 1
+            obs = ir[bi]
+            if lpb is not None and len({r["line"] // lpb for r in rows if r["id"] is None}) > 1:
+                nnontriv += 1
+            if obs != orc and gb_anon(obs) != orc_anon:
+                nvio += 1
+                rep.violation(gb_key(c, lpb), dict(case=dict(c, lpbs=[lpb]), lines_per_block=lpb, expected_by_spec=jsonable(orc),
+                                                   observed_impl=jsonable(obs),
+                                                   model_output=jsonable(mrecs[bi]) if mrecs else None,
+                                                   broken="records of a GFF text loaded in blocks differ from the records the text describes"))
+            elif mrecs is not None and obs[0] != mrecs[bi]:
+                dis.append(dict(key=gb_key(c, lpb) + ":model", case=dict(c, lpbs=[lpb]), observed_impl=jsonable(obs[0]),
+                                model_output=jsonable(mrecs[bi]), model_variant="fixed" if fixed else "as-first-read"))
+    return nload, nnontriv, dis, nvio
 
 
 # ------------------------------------------------------------------ rendering for Coq
@@ -399,20 +685,32 @@ def run(tier: str, seed: int) -> int:
     ncases = 150 if tier == "quick" else 2500
     if proof_broken:
         ncases *= 4  # widened search
-    cases = [lattice_case("basic"), lattice_case("gff")]
+    cases = [lattice_case("basic"), lattice_case("gff")] + twotable_cases()
     cases += [random_case(rng) for _ in range(ncases)]
-    impl = core.run_impl_sharded("c17_impl.py", cases)
-    model = None
+    rng_g = random.Random(seed * 7919 + 18)
+    gcases = [GB_PROBE] + gb_exhaustive_cases() + [gb_random_case(rng_g) for _ in range((60 if tier == "quick" else 1500) * (4 if proof_broken else 1))]
+    impl_all = core.run_impl_sharded("c17_impl.py", cases + gcases)
+    impl, gimpl = impl_all[:len(cases)], impl_all[len(cases):]
+    # which rule does the source follow for a name met again in a later block (see Model/AnnotDbGff.v)?
+    gb_fixed = isinstance(gimpl[0], list) and len(gimpl[0][1][0]) == 1
+    model = gmodel = None
     try:
         model = run_model(cases)
+        gmodel = core.coq_eval(PROP, ["Model.AnnotDb", "Model.AnnotDbGff"], "run_blocks", [gb_coq_case(c, gb_fixed) for c in gcases],
+                               "bool * list (option gline) * list Z", shard=80, tag="gb")
     except core.CheckError as e:
         if not proof_broken:
             raise
         rep.notes.append(f"model not runnable: {str(e)[:300]}")
+    if gmodel is None:
+        gmodel = [None] * len(gcases)
     if model is None:
         model = [[[None, None, None]] * len(c["queries"]) for c in cases]
         # model unavailable: still compare implementation against the specification oracle
     ndis, nvio = compare(rep, cases, impl, model)
+    g_loads, g_nontriv, g_dis, g_vio = gb_compare(rep, gcases, gimpl, gmodel, gb_fixed)
+    ndis += len(g_dis)
+    nvio += g_vio
 
     nq = sum(len(c["queries"]) for c in cases)
     nontrivial = set()
@@ -427,10 +725,16 @@ def run(tier: str, seed: int) -> int:
         for o in c["ops"]:
             dist[o["op"]] = dist.get(o["op"], 0) + 1
     rep.coverage.update(
-        evaluations=nq, distinct_nontrivial=len(nontrivial),
-        rule="one evaluation = one query on one database history; non-trivial = coordinate-window query returning >=1 record; "
-             "lattice block: all features/windows with coordinates in -1..7 x partial x bound presence, exhaustive; random block: "
-             "random multi-span records on 3 seqids, shared names, %/_ patterns, histories of add/union/update/subset/copy",
+        evaluations=nq + g_loads, distinct_nontrivial=len(nontrivial) + g_nontriv,
+        rule="one evaluation = one query on one database history, or one load of one GFF text with one lines_per_block; "
+             "non-trivial = coordinate-window query returning >=1 record, or a GFF load in which rows without ID= sit in more than "
+             "one block; lattice block: all features/windows with coordinates in -1..7 x partial x bound presence, exhaustive; "
+             "two-table block: on_alignment x user rows present/absent x start/stop in {None,0,k} x falsy filters x both entry points; "
+             "random block: random multi-span records on 3 seqids, shared names, %/_ patterns, histories of "
+             "add/union/update/subset/copy; gffblocks: every 4-row file over {ID=a, ID=b, no ID} (+comment line) and random GFF "
+             "texts, each loaded with lines_per_block in {1,2,3,5,len-1,len,default,None}",
+        gff_block_loads=g_loads, gff_block_loads_idless_rows_in_several_blocks=g_nontriv,
+        gff_block_model_variant="repaired rule (notes/proposed_fixes/C17-3.diff)" if gb_fixed else "rule as first read (split features duplicated)",
         samples=[dict(case=dict(cases[2], queries=cases[2]["queries"][:2]), impl=impl[2][:2] if not isinstance(impl[2], dict) else impl[2])],
         input_distribution=dict(cases=len(cases), queries=nq, ops=dist),
         model_impl_disagreements=ndis, spec_violations=nvio,
@@ -438,7 +742,7 @@ def run(tier: str, seed: int) -> int:
         exhaustive=False,
     )
     dis = [dict(key=classify(c, qi), case=dict(c, queries=[c["queries"][qi]]), observed_impl=jsonable(i_q), model_output=jsonable(m_q))
-           for (c, qi, i_q, m_q) in rep.pending_disagreements[:5]]
+           for (c, qi, i_q, m_q) in rep.pending_disagreements[:5]] + g_dis[:5]
     core.conclude(rep, pr, f"{len(cases)} cases / {nq} queries against the interval oracle", dis,
                   "Model.AnnotDbRun.run_case vs cogent3.core.annotation_db", tier, PROP)
     return rep.finish("proof")
@@ -452,6 +756,14 @@ def replay(path: str) -> int:
         print("replay names a broken obligation, not an input:", d.get("broken"))
         return 1
     c = d["case"]
+    if c.get("kind") == "gffblocks":
+        impl = from_jsonable(core.run_impl_lines("c17_impl.py", [c])[0])
+        orc = gb_oracle(c)
+        print("impl  :", impl)
+        print("oracle:", orc)
+        bad = isinstance(impl, dict) or any(o != orc and gb_anon(o) != gb_anon(orc) for o in impl)
+        print("REPRODUCED" if bad else "not reproduced")
+        return 1 if bad else 0
     impl = core.run_impl_lines("c17_impl.py", [c])[0]
     orc = run_oracle(c)
     print("impl  :", impl)
